@@ -31,6 +31,7 @@ func runC12(c *Ctx) {
 	ruleStreamCap(c, "R12.5")
 	ruleFreshWorkerPerCallback(c, "R12.6")
 	ruleNoGoroutinePerPartial(c, "R12.7")
+	ruleAppendLockOnlyAroundPut(c, "R12.8")
 	ruleStreamEndDeregisters(c, "R12.2")
 }
 
@@ -482,6 +483,32 @@ func ruleFreshWorkerPerCallback(c *Ctx, rule string) {
 		}
 	})
 	c.Ok(rule, "a replaced callback's queue is closed (its worker ends; a stalled old consumer cannot delay the new one)", pos, okC, "")
+	// replacement is atomic: between taking the old queue out of the table and putting the new one in, the store lock is
+	// never released (a beacon stored in such a window finds no queue for this id and is dispatched to nobody)
+	if upd != nil {
+		gap := false
+		forEachInstr(fn, func(_ *ssa.BasicBlock, _ int, in ssa.Instruction) {
+			call, ok := in.(*ssa.Call)
+			if !ok {
+				return
+			}
+			b, isB := call.Common().Value.(*ssa.Builtin)
+			if !isB || b.Name() != "delete" || !loadsField(call.Common().Args[0], "internal/chain/beacon.callbackStore", "newJob") {
+				return
+			}
+			if pathBetweenThrough(in, upd, func(x ssa.Instruction) bool {
+				c2, isC := x.(*ssa.Call)
+				if !isC {
+					return false
+				}
+				op, isOp := lockOpOf(c2)
+				return isOp && !op.Acquire && op.ID == "internal/chain/beacon.callbackStore.RWMutex"
+			}) {
+				gap = true
+			}
+		})
+		c.Ok(rule, "replacing a callback removes the old queue and installs the new one in one critical section", pos, !gap, "no unlock of the store between delete(newJob[id]) and newJob[id] = make(...)")
+	}
 	// the worker runs callbacks in receive order, one at a time
 	rw := c.P.Fn("internal/chain/beacon.(*callbackStore).runWorker")
 	if c.Anchor(rule, "internal/chain/beacon.(*callbackStore).runWorker", rw != nil) {
@@ -631,4 +658,40 @@ func ruleStreamEndDeregisters(c *Ctx, rule string) {
 		}
 	})
 	c.Floor(rule, "context-done arms after the live callback was registered", n, 1)
+}
+
+// R12.8: the mutex that serialises appends is taken by appendStore.Put only, around its check-and-write. Every beacon the
+// node stores goes through that mutex; a reader that holds it while it streams to a remote consumer (a cursor callback that
+// sends on a network stream) lets one slow consumer stop storage for everybody.
+func ruleAppendLockOnlyAroundPut(c *Ctx, rule string) {
+	c.ranRules[rule] = true
+	n := 0
+	for _, fn := range c.P.SubjectFns() {
+		if isControlFn(fn) || fnPkgPath(fn) != pkBeacon {
+			continue
+		}
+		forEachInstr(fn, func(_ *ssa.BasicBlock, _ int, in ssa.Instruction) {
+			call, ok := in.(ssa.CallInstruction)
+			if !ok {
+				return
+			}
+			cc, isCall := in.(*ssa.Call)
+			if !isCall {
+				if d, isD := in.(*ssa.Defer); isD {
+					_ = d
+				}
+				return
+			}
+			op, isOp := lockOpOf(cc)
+			if !isOp || !op.Acquire || !strings.HasPrefix(op.ID, "internal/chain/beacon.appendStore.") {
+				return
+			}
+			_ = call
+			n++
+			owner := enclosingNamed(fn)
+			c.Ok(rule, fnShort(fn)+" takes the append-layer mutex", shortPos(c.P, in), baseName(owner) == "Put" && owner.Signature.Recv() != nil && typeShort(owner.Signature.Recv().Type()) == "internal/chain/beacon.appendStore",
+				"only appendStore.Put may hold the mutex that every stored beacon has to pass")
+		})
+	}
+	c.Floor(rule, "acquisitions of the append-layer mutex", n, 1)
 }
